@@ -282,7 +282,7 @@ func TestC20Sets(t *testing.T) {
 		}
 
 		// Partition and empty-blob filter of every set and of the union.
-		multiInstance, manyInstances, emptyBlob := false, false, false
+		multiInstance, manyInstances, emptyBlob, partsNotInKeyOrder := false, false, false, false
 		subjects := append(append([]digest.Set(nil), family...), u)
 		subjectModels := append(append([]mset(nil), models...), all)
 		for i, s := range subjects {
@@ -310,26 +310,44 @@ func TestC20Sets(t *testing.T) {
 			if len(parts) != len(order) {
 				t.Fatalf("PartitionByInstanceName of %s %q: %d parts, want %d (%q)", what, keysOf(s.Items()), len(parts), len(order), order)
 			}
+			// Which part holds which instance name is read off the parts
+			// (the order of the parts is not part of the property); every
+			// instance name must occur as exactly one part.
+			partInst := make([]string, len(parts))
+			seenInst := map[string]bool{}
+			inOrder := true
 			for pi, p := range parts {
-				checkSet(t, rk, fmt.Sprintf("PartitionByInstanceName of %s, part %d (instance name %q)", what, pi, order[pi]), p, groups[order[pi]])
+				first, ok := p.First()
+				if !ok {
+					t.Fatalf("PartitionByInstanceName of %s: part %d is empty", what, pi)
+				}
+				inst := first.GetInstanceName().String()
+				if groups[inst] == nil || seenInst[inst] {
+					t.Fatalf("PartitionByInstanceName of %s %q: part %d is for instance name %q, which is absent or has another part already", what, keysOf(s.Items()), pi, inst)
+				}
+				seenInst[inst] = true
+				partInst[pi] = inst
+				inOrder = inOrder && inst == order[pi]
+				checkSet(t, rk, fmt.Sprintf("PartitionByInstanceName of %s, part %d (instance name %q)", what, pi, inst), p, groups[inst])
 				for _, d := range p.Items() {
-					if d.GetInstanceName().String() != order[pi] {
-						t.Fatalf("PartitionByInstanceName of %s: part %d holds %q, want only instance name %q", what, pi, d.String(), order[pi])
+					if d.GetInstanceName().String() != inst {
+						t.Fatalf("PartitionByInstanceName of %s: part %d holds %q, want only instance name %q", what, pi, d.String(), inst)
 					}
 				}
 			}
+			partsNotInKeyOrder = partsNotInKeyOrder || !inOrder
 			multiInstance = multiInstance || len(order) >= 2
 			manyInstances = manyInstances || len(order) >= 3
 			checkSet(t, rk, "GetUnion of the partition of "+what, digest.GetUnion(parts), m)
 			// Appending to parts (as callers do through further set
 			// operations) must not write into the partitioned set.
 			for pi, p := range parts {
-				checkSet(t, rk, "RemoveEmptyBlob of a part", p.RemoveEmptyBlob(), groups[order[pi]].intersect(nonEmpty))
+				checkSet(t, rk, "RemoveEmptyBlob of a part", p.RemoveEmptyBlob(), groups[partInst[pi]].intersect(nonEmpty))
 				if pi+1 < len(parts) {
 					a, b, cc := digest.GetDifferenceAndIntersection(p, parts[pi+1])
 					checkSet(t, rk, "two parts are disjoint", b, mset{})
-					checkSet(t, rk, "part minus next part", a, groups[order[pi]])
-					checkSet(t, rk, "next part minus part", cc, groups[order[pi+1]])
+					checkSet(t, rk, "part minus next part", a, groups[partInst[pi]])
+					checkSet(t, rk, "next part minus part", cc, groups[partInst[pi+1]])
 				}
 			}
 			ne := s.RemoveEmptyBlob()
@@ -376,6 +394,7 @@ func TestC20Sets(t *testing.T) {
 		c.ClassIf(multiInstance, "set_with_two_instance_names")
 		c.ClassIf(manyInstances, "set_with_three_instance_names")
 		c.ClassIf(emptyBlob, "has_empty_blob")
+		c.ClassIf(partsNotInKeyOrder, "partition_parts_not_in_key_order")
 		c.ClassIf(disjoint, "disjoint_pair")
 		c.ClassIf(subset, "proper_subset_pair")
 		c.ClassIf(len(all) >= 6, "union_of_six_or_more")
